@@ -40,9 +40,18 @@ func parsedLine(id, q string) (line string) {
 			line = fmt.Sprintf("PARSED %s panic %s", id, hx(fmt.Sprint(r)))
 		}
 	}()
+	types, _, lexErr := parser.VerifTokens(q)
+	ts := make([]string, len(types))
+	for i, t := range types {
+		ts[i] = fmt.Sprint(t)
+	}
+	toks := strings.Join(ts, ".")
+	if lexErr {
+		toks = "!" + toks
+	}
 	pq, err := parser.ParseQuery(q)
 	if err != nil {
-		return fmt.Sprintf("PARSED %s reject %s", id, hx(err.Error()))
+		return fmt.Sprintf("PARSED %s reject toks=%s", id, toks)
 	}
 	var from, sel, preds []string
 	for _, s := range pq.SelectList {
@@ -70,7 +79,7 @@ func parsedLine(id, q string) (line string) {
 	if cerr != nil {
 		c = "!"
 	}
-	return fmt.Sprintf("PARSED %s accept from=%s select=%s preds=%s cond=%s", id, strings.Join(from, ","), strings.Join(sel, ","), strings.Join(preds, ","), c)
+	return fmt.Sprintf("PARSED %s accept toks=%s from=%s select=%s preds=%s cond=%s", id, toks, strings.Join(from, ","), strings.Join(sel, ","), strings.Join(preds, ","), c)
 }
 
 func runOne(q string, g *graph.CodeGraph, mode string) (res string, err error, panicked string) {
